@@ -181,6 +181,48 @@ func c11ActiveAddress(c *Ctx, r *Report, rule string) {
 
 // c11Provision evaluates Upstream.provision: how an upstream gets its peers, its connection limit and its view of
 // the passive health policy.
+// c11NoPeerlessUpstream: an upstream without dial addresses has no peers: it is "healthy" and "not full" by vacuity,
+// every policy selects it, and the connection is proxied to nothing. The Caddyfile refuses such an upstream; a JSON
+// configuration must be refused as well, when it is provisioned.
+func c11NoPeerlessUpstream(c *Ctx, r *Report, rule string) {
+	r.rule(rule, "Upstream.provision on an upstream without dial addresses (path evaluation): provisioning fails - an upstream without peers would be available by vacuity and selected by every policy, with nothing to dial", 1)
+	fnName := "modules/l4proxy.(*Upstream).provision"
+	fn := c.Fn(fnName)
+	if fn == nil {
+		r.bad(rule, fnName, "exists", "-", "function not found")
+		return
+	}
+	sc := &Scenario{Name: "no dial addresses", MaxVisit: 5, MaxPaths: 2000,
+		Params: map[string]SV{"recv": symRef("u", false)},
+		ByType: map[string]SV{"modules/l4proxy.Handler": symRef("h", false), "caddy/v2.Context": {K: "struct", Desc: "ctx"}},
+		Heap: map[string]SV{"u.Dial": symSlice("dial", 0), "u.MaxConnections": symInt(0), "u.TLS": symNil(), "u.peers": symSlice("nil-peers", 0),
+			"h.logger": symRef("logger", false), "h.HealthChecks": symNil()},
+	}
+	sc.Call = func(callee string, args []SV, ev *symEval, st *symState) (SV, bool) {
+		switch {
+		case strings.HasSuffix(callee, "caddy/v2.NewReplacer"):
+			return symRef("repl", false), true
+		case callee == "fmt.Errorf", callee == "errors.New":
+			return SV{K: "ref", Known: true, Desc: "provisionError"}, true
+		case strings.HasPrefix(callee, "(*go.uber.org/zap.Logger)"), strings.HasPrefix(callee, "go.uber.org/zap."):
+			return symRef("named-logger", false), true
+		}
+		return SV{}, false
+	}
+	paths, err := evalPaths(fn, sc)
+	if err != nil || len(paths) == 0 {
+		r.bad(rule, fnName, sc.Name, c.pos(fn.Pos()), fmt.Sprintf("undecided: %v", err))
+		return
+	}
+	okPaths := 0
+	for _, p := range paths {
+		if len(p.Ret) == 1 && p.Ret[0].K == "ref" && p.Ret[0].Known && p.Ret[0].Nil {
+			okPaths++
+		}
+	}
+	r.check(okPaths == 0, rule, fnName, sc.Name, c.pos(fn.Pos()), "provisioning fails", fmt.Sprintf("an upstream without dial addresses provisions without error (%d of %d paths): it has no peers, so it is healthy and below its connection limit by vacuity - every selection policy returns it, and the client's connection is proxied to nothing (the Caddyfile refuses the same upstream)", okPaths, len(paths)))
+}
+
 func c11Provision(c *Ctx, r *Report, rule string) {
 	r.rule(rule, "Upstream.provision (path evaluation over: no health checks / no passive checks / passive checks with unhealthy_connection_count 0 or 3, max_connections 0, 1 or 5, 2 dial addresses each new or already known): on success the upstream has one peer per dial address in order (the stored one for a known address), max_connections is the configured value, or unhealthy_connection_count when it is unset and that is positive, and the health policy the availability test reads is the handler's passive policy; an address that does not parse or spans a port range fails provisioning", 12)
 	fnName := "modules/l4proxy.(*Upstream).provision"
@@ -217,6 +259,7 @@ func c11Provision(c *Ctx, r *Report, rule string) {
 				sc.Heap["passive.MaxFails"] = symInt(7)
 			}
 			nParse := 0
+			var rawParse []string
 			sc.Call = func(callee string, args []SV, ev *symEval, st *symState) (SV, bool) {
 				switch {
 				case strings.HasSuffix(callee, "caddy/v2.NewReplacer"):
@@ -235,6 +278,9 @@ func c11Provision(c *Ctx, r *Report, rule string) {
 				switch {
 				case strings.HasSuffix(callee, "caddy/v2.ParseNetworkAddress"):
 					nParse++
+					if !strings.HasPrefix(args[0].Desc, "resolved(") {
+						rawParse = append(rawParse, args[0].Desc)
+					}
 					a := SV{K: "struct", Desc: "addr(" + args[0].Desc + ")"}
 					return []CallAlt{{Ret: symTuple(a, symNil()), Note: "parsed"}, {Ret: symTuple(SV{K: "struct", Desc: "zeroaddr"}, SV{K: "ref", Known: true, Desc: "parseErr"}), Note: "bad"}}
 				case strings.HasSuffix(callee, "NetworkAddress).PortRangeSize"):
@@ -321,6 +367,9 @@ func c11Provision(c *Ctx, r *Report, rule string) {
 			}
 			if okPaths == 0 {
 				problems = append(problems, "no successful provisioning path")
+			}
+			if len(rawParse) > 0 {
+				problems = append(problems, "the dial address is parsed as configured ("+strings.Join(dedup(rawParse), ", ")+"), not as the replacer resolves it: an address whose port (or all of it) is a placeholder known at load time - 127.0.0.1:{env.PORT} - adapts but fails to provision")
 			}
 			r.check(len(problems) == 0, rule, fnName, name, c.pos(fn.Pos()), fmt.Sprintf("%d paths (%d successful)", len(paths), okPaths), strings.Join(dedup(problems), "; "))
 		}
